@@ -59,80 +59,22 @@ func findDrawBlock(p *Prog, fn *ssa.Function) *ssa.BasicBlock {
 }
 
 func checkC02(c *Ctx, r *Report) {
-	r.Explanation = "Decided (control skeleton and value wiring, by shape): on the only signature-returning path of SignHashed the nonce is one 32-byte io.ReadFull draw; the complete set of rejection rules — k >= n, k = 0, r = 0, r + k = n, s = 0 — are guards that dominate the return and whose failing arm restarts the draw; keys outside [1, n-2] are refused with an error and nil results (inventory of TestPrivateKey's accepting returns: non-zero and < n-1); the returned values are, as canonical expressions over the dominator path, r = (x1 + e) mod n with x1 the affine x of [k]G and s = ((r + k)(1 + d)^-1 - r) mod n with the inverse taken by the fixed Fermat chain on the 32-byte padding of d+1, each left-padded to 32 bytes. NOT decided: the numeric values of the group and field operations those expressions name (C14-C16), i.e. that the named operations compute what their names say."
-	r.Trusted = []string{"go/ssa", "math/big method semantics", "io.ReadFull contract"}
+	r.Explanation = "Decided on the outcomes of a path-by-path interpretation of sm2.SignHashed in the protocol domain (checker/proto*.go: byte strings, integers and points are symbolic terms; math/big, crypto/subtle, io.ReadFull, SM3 and the sm2/internal layer are summarised by their contracts; the path condition is a set of linear facts decided by an exact LP): FOLLOWED (every statement is understood), PRECONDITIONS (fixed-width scalars, finite points, values fit their encodings), SIGN-KEY-RANGE (a signature only for 1 <= d <= n-2), SIGN-NONCE (k is the last full 32-byte draw and 1 <= k <= n-1), SIGN-R, SIGN-R-NONZERO, SIGN-RK (r + k != n), SIGN-S (s is the canonical residue of (1+d)^-1 (k - r d): polynomial identity modulo n with the relation inv*(1+d) = 1), SIGN-S-NONZERO, SIGN-WIDTH (32-byte big-endian r and s), SIGN-REDRAW (a rejected candidate leads to a new draw at the same site), SIGN-ERROR-RESULTS. The statements are about values and path conditions, not about the spelling of guards or the split into helpers. NOT decided: the values of [k]G (C14, C15, C16) and of SM3 (C04)."
+	r.Trusted = []string{"go/ssa", "contracts of math/big, crypto/subtle.ConstantTimeCompare, io.ReadFull as summarised in checker/proto2.go", "utils.ConstantTimeCmp is an exact three-way comparison (C20)", "internal.ScalarBaseMult returns [k]G for a 32-byte k (C14); scalar decoding accepts exactly the canonical 32-byte values below n (C16)"}
 	p, err := LoadRepo(c.Repo, "amd64")
 	if err != nil {
 		r.Fatalf("%v", err)
 		return
 	}
-	f := NewFolder(p)
-	fn := p.MustFunc(r, "sm2.SignHashed")
-	if fn == nil {
-		return
+	protoSignHashed(r, p)
+	if ps := newProtoSpec(r, p, "sm2.TestPrivateKey"); ps != nil {
+		ps.specTestPrivateKey(pParam("priv"))
 	}
-	var accept []*ssa.Return
-	for _, b := range fn.Blocks {
-		if ret, ok := b.Instrs[len(b.Instrs)-1].(*ssa.Return); ok && isNilConst(retVals(ret)[2]) {
-			accept = append(accept, ret)
-		}
-	}
-	if len(accept) != 1 {
-		r.Viol("SINGLE-ACCEPT", "sm2.SignHashed", p.Pos(fn.Pos()), fmt.Sprintf("%d returns carry a nil error; exactly one is expected", len(accept)))
-		return
-	}
-	ret := accept[0]
-	draw := findDrawBlock(p, fn)
-	if draw == nil {
-		r.Viol("DRAW-UNIT", "sm2.SignHashed", p.Pos(fn.Pos()), "no io.ReadFull draw found")
-		return
-	}
-	ps := newPathSym(p, fn, f)
-	ps.WalkTo(ret.Block())
-	K, RV, RK, SV := signExprs()
-	cmpKN := xf("ConstantTimeCmp", K, "bytes32(N)", "32")
-	cmpK0 := xf("ConstantTimeCompare", K, "zeros(32)")
-	rkB := xf("Int.Bytes", RK)
-	reqs := []guardReq{
-		{"(priv, TestPrivateKey = 0, error)", []string{"TestPrivateKey(priv) == 0"}, "error"},
-		{"(draw, error)", []string{"err(ReadFull(rand)) == nil"}, "error"},
-		{"(k, <, n, restart)", []string{cmpKN + " < 0", cmpKN + " == -1", cmpKN + " <= -1"}, "restart"},
-		{"(k, !=, 0, restart)", []string{cmpK0 + " != 1", cmpK0 + " == 0", "!" + xf("SM2Point.IsInfinity", xf("ScalarBaseMult", K))}, "restart"},
-		{"(r, !=, 0, restart)", bigNZ(RV), "restart"},
-		{"(r + k, !=, n, restart)", []string{
-			"!(len(" + rkB + ") == 32 && " + xf("ConstantTimeCmp", rkB, "bytes32(N)", "32") + " == 0)",
-			xf("Int.Cmp", RK, "N") + " != 0",
-			xf("ConstantTimeCmp", xf("ensure32Bytes", RK), "bytes32(N)", "32") + " != 0",
-		}, "restart"},
-		{"(s, !=, 0, restart)", bigNZ(SV), "restart"},
-	}
-	checkInventory(r, p, ps, "sm2.SignHashed", p.InstrPos(ret), reqs, draw)
-	// values
-	gotR, gotS := normText(ps.S(retVals(ret)[0])), normText(ps.S(retVals(ret)[1]))
-	wantR := []string{xf("ensure32Bytes", RV)}
-	wantS := []string{xf("ensure32Bytes", SV)}
-	r.Check(inList(gotR, wantR), "SIGNATURE-EXPRESSION", "sm2.SignHashed r", p.InstrPos(ret), "returned r is "+gotR+"; standard: pad32((x1 + e) mod n)")
-	r.Check(inList(gotS, wantS), "SIGNATURE-EXPRESSION", "sm2.SignHashed s", p.InstrPos(ret), "returned s is "+gotS+"; standard: pad32(((r + k)(1 + d)^-1 - r) mod n)")
-	// the nonce that enters the formulas is the drawn one, drawn once per candidate
-	r.Check(ps.draws == 1, "DRAW-UNIT", "sm2.SignHashed one draw per candidate", p.InstrPos(ret), fmt.Sprintf("%d io.ReadFull calls on the accepting path", ps.draws))
-	// output width
-	env := NewLinEnv(p, fn)
-	env.lenSum = func(c2 *ssa.Function, call2 *ssa.Call, en *LinEnv) ([]*Lin, bool) {
-		return retLenSummary(p, c2, 0, call2, en, 0)
-	}
-	for i, nm := range []string{"r", "s"} {
-		ls, ok := env.Len(retVals(ret)[i])
-		r.Check(ok && len(ls) == 1 && ls[0].IsConst() && ls[0].C == 32, "L-RET", "sm2.SignHashed "+nm+" is 32 bytes", p.InstrPos(ret), fmt.Sprintf("length set %v", linStrs(ls)))
-	}
-	// draw width
-	if dc, buf := findDraw(p, fn); dc != nil {
-		ls, ok := env.Len(buf)
-		r.Check(ok && len(ls) == 1 && ls[0].IsConst() && ls[0].C == 32, "DRAW-UNIT", "sm2.SignHashed draws 32 bytes", p.InstrPos(dc), fmt.Sprintf("buffer length %v", linStrs(ls)))
-	}
-	c12TestPrivateKey(r, p, f)
 	// decoding of d+1: canonical-range guard of the scalar decoder (n-1 must be accepted: d = n-2 is a valid key)
-	c03ScalarDecoderOnly(r, p, f)
-	r.Floor("required_guards", 7)
+	if ps := newProtoSpecMode(r, p, "sm2/internal/fiat.(*SM2ScalarElement).SetBytes", false); ps != nil {
+		ps.specElemDecode("N")
+	}
+	r.Floor("protocol_paths", 20)
 }
 
 func inList(s string, l []string) bool {
